@@ -76,3 +76,10 @@ check(
     "Hypothesis property-based testing; differential dry-run vs real run + snapshot equality",
     "DESIGN.md §3 C04",
 )
+check(
+    "C09", "exploration",
+    "Differential search over generated histories: projects of multi-trigger files (seeds of several codemods concatenated in separate scopes; hand-written same-line co-triggers) plus manifests, under generated sequences of 2-5 codemods (rule-detected ones and dependency adders included; the whole default set in the thorough tier). Copy A runs the sequence in one invocation, copy B runs one invocation per codemod in order on the evolving tree; final trees must be byte-identical and each per-codemod result (changesets with diffs and changes, failed files, unfixed findings, description with dependency notice) equal. The batch tree is also judged by C01's validity oracle.",
+    "Trusted: the sequential configuration of the same code as the reference; order of change entries inside a changeset compared as a multiset; failed files compared relative to the project.",
+    "Hypothesis property-based testing; differential batch vs. sequential histories with tree snapshots",
+    "DESIGN.md §3 C09",
+)
